@@ -207,7 +207,7 @@ Proof.
       apply (find_key_None _ _ 0) in Hr. rewrite Hr, rev_length. reflexivity.
     + rewrite fold_incr_lookup.
       2:{ rewrite map_rev. apply NoDup_rev. apply (NoDup_app_r _ _ NDk). }
-      cbn [idx]. rewrite lookup_set, Ek, C. rewrite E at 2 3. rewrite find_key_app. cbn [Nat.add].
+      cbn [idx]. rewrite lookup_set, Ek, C. rewrite E. rewrite find_key_app. cbn [Nat.add].
       destruct (find_key k (rev rest) 0) as [j|] eqn:F1.
       * (* k sits in the part that does not move *)
         destruct (mem_str k (map key (rev mv))) eqn:M; [|reflexivity].
@@ -235,12 +235,6 @@ Qed.
 
 (* ---------- add_many ---------- *)
 (* spec: add, in order, the rules that are not yet listed (also not earlier in the batch) *)
-Fixpoint spec_add_many (prio : option nat) (l : list rule) (rs : list rule) : list rule * list rule :=
-  match rs with
-  | [] => (l, [])
-  | r :: t => if mem_rule r l then spec_add_many prio l t
-              else let '(l', aff) := spec_add_many prio (spec_insert prio l r) t in (l', r :: aff)
-  end.
 
 Lemma has_mem_rule s r : Inv s -> wf_rule r = true -> has s r = mem_rule r (pol s).
 Proof.
@@ -290,11 +284,13 @@ Proof.
 Qed.
 
 Lemma Coh_split s i r : Coh s -> nth_error (pol s) i = Some r ->
-  pol s = firstn i (pol s) ++ r :: skipn (S i) (pol s) /\ List.length (firstn i (pol s)) = i /\
-  ~ In (key r) (map key (firstn i (pol s))) /\ ~ In (key r) (map key (skipn (S i) (pol s))) /\
-  NoDup (map key (firstn i (pol s)) ++ map key (skipn (S i) (pol s))).
+  exists pre suf, pol s = pre ++ r :: suf /\ List.length pre = i /\
+  firstn i (pol s) = pre /\ skipn (S i) (pol s) = suf /\
+  ~ In (key r) (map key pre) /\ ~ In (key r) (map key suf) /\
+  NoDup (map key pre ++ map key suf).
 Proof.
-  intros [ND _] H. destruct (nth_error_split_at _ _ _ H) as [E L]. split; [exact E|]. split; [exact L|].
+  intros [ND _] H. destruct (nth_error_split_at _ _ _ H) as [E L].
+  exists (firstn i (pol s)), (skipn (S i) (pol s)). split; [exact E|]. split; [exact L|]. split; [reflexivity|]. split; [reflexivity|].
   rewrite E, map_app in ND. cbn [map] in ND. apply NoDup_remove in ND as [ND1 ND2].
   rewrite in_app_iff in ND2. tauto.
 Qed.
@@ -307,26 +303,27 @@ Proof.
   destruct (lookup (key r) (idx s)) as [i|] eqn:L; cbn [fst snd].
   - destruct (lookup_Some_nth s _ _ C L) as [r' [Hn Hk]].
     assert (r' = r). { apply key_injective; [eapply Forall_forall in W; [eassumption|eapply nth_error_In; eassumption]|exact Wr|exact Hk]. } subst r'.
-    destruct (Coh_split s i r C Hn) as [E [Len [N1 [N2 ND]]]]. destruct C as [_ C].
+    destruct (Coh_split s i r C Hn) as (pre & suf & E & Len & Ef & Es & N1 & N2 & ND). destruct C as [_ C].
+    rewrite Ef, Es.
     split; [split; [split|]|split]; cbn [pol idx].
     + rewrite map_app. exact ND.
     + intros k. rewrite lookup_reindex by (apply (NoDup_app_r _ _ ND)). rewrite find_key_app, Len. cbn [Nat.add].
-      rewrite lookup_del, C. rewrite E at 3. rewrite find_key_app, Len. cbn [find_key Nat.add].
-      destruct (find_key k (firstn i (pol s)) 0) as [j|] eqn:F1.
-      * assert (Hin : In k (map key (firstn i (pol s)))).
-        { destruct (in_dec string_dec k (map key (firstn i (pol s)))) as [H|H]; [exact H|]. apply (find_key_None _ _ 0) in H. congruence. }
-        assert (F2 : find_key k (skipn (S i) (pol s)) i = None).
+      rewrite lookup_del, C. rewrite E. rewrite find_key_app, Len. cbn [find_key Nat.add].
+      destruct (find_key k pre 0) as [j|] eqn:F1.
+      * assert (Hin : In k (map key pre)).
+        { destruct (in_dec string_dec k (map key pre)) as [H|H]; [exact H|]. apply (find_key_None _ _ 0) in H. congruence. }
+        assert (F2 : find_key k suf i = None).
         { apply find_key_None. intros H. apply (NoDup_app_disj _ _ k ND); assumption. }
         rewrite F2. destruct (String.eqb k (key r)) eqn:Ek; [|reflexivity].
         apply String.eqb_eq in Ek. subst k. contradiction.
       * rewrite (find_key_shift k _ i).
-        destruct (find_key k (skipn (S i) (pol s)) i) as [j|] eqn:F2; cbn [option_map].
+        destruct (find_key k suf i) as [j|] eqn:F2; cbn [option_map].
         -- destruct (String.eqb k (key r)) eqn:Ek.
            ++ apply String.eqb_eq in Ek. subst k. apply (find_key_None _ _ i) in N2. congruence.
-           ++ (* new position j, old position S j *) reflexivity.
+           ++ reflexivity.
         -- destruct (String.eqb k (key r)); reflexivity.
     + rewrite E in W. apply Forall_app in W as [W1 W2]. inversion W2; subst. apply Forall_app. auto.
-    + rewrite E at 3. rewrite remove_first_split; [reflexivity|]. intros H. apply N1. apply in_map. exact H.
+    + rewrite E. rewrite remove_first_split; [reflexivity|]. intros H. apply N1. apply in_map. exact H.
     + exact Hm.
   - split; [split; assumption|]. split; [|exact Hm]. symmetry. apply remove_first_notin.
     intros H. apply mem_rule_In in H. congruence.
@@ -334,17 +331,11 @@ Qed.
 
 Lemma remove_first_WF r l : WF l -> WF (remove_first r l).
 Proof.
-  induction l as [|x t IH]; intros W; cbn [remove_first]; [exact W|]. inversion W; subst.
-  destruct (rule_eqb r x); [assumption|constructor; auto].
+  induction l as [|x t IH]; intros W; cbn [remove_first]; [exact W|]. inversion W as [|? ? Wx Wt]; subst.
+  destruct (rule_eqb r x); [exact Wt|constructor; [exact Wx|apply IH; exact Wt]].
 Qed.
 
 (* ---------- remove_many ---------- *)
-Fixpoint spec_remove_many (l : list rule) (rs : list rule) : list rule * list rule :=
-  match rs with
-  | [] => (l, [])
-  | r :: t => let '(l', aff) := spec_remove_many (remove_first r l) t in
-              (l', if mem_rule r l then r :: aff else aff)
-  end.
 
 Theorem remove_many_spec rs : forall s, Inv s -> WF rs ->
   Inv (fst (remove_many s rs)) /\
@@ -380,20 +371,20 @@ Lemma update_slot s i o n : Inv s -> nth_error (pol s) i = Some o -> wf_rule n =
   let s' := {| pol := set_nth i n (pol s); idx := set (key n) i (del (key o) (idx s)) |} in
   Inv s' /\ pol s' = replace_first o n (pol s) /\ nth_error (pol s') i = Some n.
 Proof.
-  intros [C W] Hn Wn Nn s'. destruct (Coh_split s i o C Hn) as [E [Len [N1 [N2 ND]]]].
+  intros [C W] Hn Wn Nn s'. destruct (Coh_split s i o C Hn) as (pre & suf & E & Len & Ef & Es & N1 & N2 & ND).
   assert (Wo : wf_rule o = true) by (eapply Forall_forall in W; [eassumption|eapply nth_error_In; eassumption]).
   assert (Nk : ~ In (key n) (map key (pol s))) by (rewrite (in_map_key_wf n _ W Wn); exact Nn).
-  assert (P : pol s' = firstn i (pol s) ++ n :: skipn (S i) (pol s)).
-  { unfold s'. cbn [pol]. rewrite E at 1. rewrite <- Len at 1. apply set_nth_app. }
+  assert (P : pol s' = pre ++ n :: suf).
+  { unfold s'. cbn [pol]. rewrite E. rewrite <- Len. apply set_nth_app. }
   destruct C as [NDs C].
   split; [split; [split|]|split].
   - rewrite P, map_app. cbn [map]. apply NoDup_insert; [exact ND|].
     intros H. apply Nk. rewrite E, map_app. cbn [map]. rewrite in_app_iff in *. cbn [In]. tauto.
-  - intros k. rewrite P. unfold s'. cbn [idx]. rewrite lookup_set, lookup_del, C. rewrite E at 1.
+  - intros k. rewrite P. unfold s'. cbn [idx]. rewrite lookup_set, lookup_del, C. rewrite E.
     rewrite !find_key_app, Len. cbn [find_key Nat.add].
     destruct (String.eqb k (key n)) eqn:E1.
     + apply String.eqb_eq in E1. subst k.
-      assert (F : find_key (key n) (firstn i (pol s)) 0 = None).
+      assert (F : find_key (key n) pre 0 = None).
       { apply find_key_None. intros H. apply Nk. rewrite E, map_app. apply in_or_app. auto. }
       rewrite F. reflexivity.
     + destruct (String.eqb k (key o)) eqn:E2.
@@ -401,7 +392,7 @@ Proof.
         apply (find_key_None _ _ (S i)) in N2. rewrite N2. reflexivity.
       * reflexivity.
   - rewrite P. rewrite E in W. apply Forall_app in W as [W1 W2]. inversion W2; subst. apply Forall_app. auto.
-  - rewrite P. rewrite E at 3. rewrite replace_first_split; [reflexivity|]. intros H. apply N1. apply in_map. exact H.
+  - rewrite P. rewrite E. rewrite replace_first_split; [reflexivity|]. intros H. apply N1. apply in_map. exact H.
   - rewrite P. rewrite nth_error_app2 by lia. rewrite Len, Nat.sub_diag. reflexivity.
 Qed.
 
@@ -450,11 +441,6 @@ Qed.
 
 (* guard of the batch update: the new rules are well-formed, pairwise distinct, not listed,
    and none of them is an old rule of the same call (F08) *)
-Fixpoint spec_update_many (l : list rule) (os ns : list rule) : option (list rule) :=
-  match os, ns with
-  | o :: os', n :: ns' => if mem_rule o l then spec_update_many (replace_first o n l) os' ns' else None
-  | _, _ => Some l
-  end.
 
 Lemma replace_first_In o n l x : In x (replace_first o n l) -> x = n \/ In x l.
 Proof.
@@ -521,9 +507,139 @@ Proof.
       * rewrite map_app. cbn [map fst]. apply NoDup_insert; rewrite app_nil_r; assumption.
       * rewrite rev_app_distr. cbn [rev app fold_left].
         eapply eqv_trans; [|exact Hundo]. apply rollback_eqv. apply (undo_slot s i o n I Hn Wn1 Nn).
-    + cbn [fst snd]. split; [|split; [reflexivity|]].
-      * (* the rolled-back store satisfies the invariant: it is eqv to s0 up to iteration order;
-           we establish it for the recorded order by a separate argument below *)
-        admit_placeholder.
-      * admit_placeholder.
-Abort.
+    + cbn [fst snd]. destruct Hundo as [Pu Lu]. split; [|split; [reflexivity|exact Pu]].
+      split; [apply (eqv_Coh _ s0); [split; assumption|apply I0]|rewrite Pu; apply I0].
+Qed.
+
+Theorem update_many_spec s os ns :
+  Inv s -> WF os -> WF ns -> NoDup ns ->
+  (forall n, In n ns -> ~ In n (pol s)) -> (forall n, In n ns -> ~ In n os) ->
+  Inv (fst (update_many s os ns)) /\
+  match spec_update_many (pol s) os ns with
+  | Some l' => snd (update_many s os ns) = true /\ pol (fst (update_many s os ns)) = l'
+  | None => snd (update_many s os ns) = false /\ pol (fst (update_many s os ns)) = pol s
+  end.
+Proof.
+  intros I Wo Wn ND Hf Hd. unfold update_many.
+  apply (update_many_loop_spec os ns s s []); try assumption.
+  - intros o _ [].
+  - intros i o n [].
+  - constructor.
+  - apply eqv_refl.
+Qed.
+
+(* F08: a batch whose new rules overlap its old rules loses a rule *)
+Example update_many_overlap_refuted :
+  let s := fst (add_many None empty_store [["a"%string]; ["b"%string]]) in
+  let s' := fst (update_many s [["a"%string]; ["b"%string]] [["b"%string]; ["c"%string]]) in
+  pol s' = [["c"%string]; ["b"%string]] /\ has s' ["b"%string] = false.
+Proof. split; reflexivity. Qed.
+
+(* ---------- filtered queries and removals ---------- *)
+Definition in_range (fi : nat) (fvs : list string) (l : list rule) : Prop :=
+  forall r, In r l -> rule_matches fi fvs r <> None.
+
+Lemma in_range_arity fi fvs l n : (forall r, In r l -> List.length r = n) -> fi + List.length fvs <= n ->
+  in_range fi fvs l.
+Proof.
+  intros Har Hle r Hr. specialize (Har r Hr). clear Hr l. revert fi Hle.
+  induction fvs as [|fv t IH]; intros fi Hle; cbn [rule_matches]; [discriminate|].
+  cbn [List.length] in Hle. destruct (String.eqb fv ""%string); [apply IH; lia|].
+  destruct (nth_error r fi) eqn:E; [|apply nth_error_None in E; lia].
+  destruct (String.eqb s fv); [apply IH; lia|discriminate].
+Qed.
+
+Theorem get_filtered_spec fi fvs l : in_range fi fvs l ->
+  get_filtered fi fvs l = Some (filter (matches_spec fi fvs) l).
+Proof.
+  induction l as [|r t IH]; intros H; cbn [get_filtered filter]; [reflexivity|].
+  assert (Hr : rule_matches fi fvs r <> None) by (apply H; left; reflexivity).
+  unfold matches_spec at 1. destruct (rule_matches fi fvs r) as [b|]; [|congruence].
+  rewrite IH by (intros x Hx; apply H; right; exact Hx). reflexivity.
+Qed.
+
+Lemma scan_filtered_spec fi fvs l : forall tmp m eff, in_range fi fvs l ->
+  exists m', scan_filtered fi fvs l tmp m eff =
+    Some (tmp ++ filter (fun r => negb (matches_spec fi fvs r)) l, m', eff ++ filter (matches_spec fi fvs) l) /\
+  (NoDup (map key (tmp ++ filter (fun r => negb (matches_spec fi fvs r)) l)) ->
+   forall k, lookup k m' = match find_key k (filter (fun r => negb (matches_spec fi fvs r)) l) (List.length tmp) with
+                           | Some j => Some j | None => lookup k m end).
+Proof.
+  induction l as [|r t IH]; intros tmp m eff H; cbn [scan_filtered filter].
+  - exists m. rewrite !app_nil_r. split; [reflexivity|]. intros _ k. reflexivity.
+  - assert (Hr : rule_matches fi fvs r <> None) by (apply H; left; reflexivity).
+    assert (Ht : in_range fi fvs t) by (intros x Hx; apply H; right; exact Hx).
+    destruct (rule_matches fi fvs r) as [b|] eqn:Er; [|congruence].
+    assert (Hm : matches_spec fi fvs r = b) by (unfold matches_spec; rewrite Er; reflexivity).
+    rewrite Hm. destruct b; cbn [negb].
+    + destruct (IH tmp m (eff ++ [r]) Ht) as [m' [E L]]. exists m'. rewrite E, <- app_assoc. split; [reflexivity|exact L].
+    + destruct (IH (tmp ++ [r]) (set (key r) (List.length tmp) m) eff Ht) as [m' [E L]]. exists m'.
+      rewrite E, <- app_assoc. split; [reflexivity|]. cbn [app]. intros ND k.
+      rewrite <- app_assoc in L. cbn [app] in L. rewrite (L ND k). cbn [find_key]. rewrite app_length. cbn [List.length].
+      replace (List.length tmp + 1) with (S (List.length tmp)) by lia.
+      destruct (String.eqb k (key r)) eqn:Ek.
+      * apply String.eqb_eq in Ek. subst k.
+        assert (F : find_key (key r) (filter (fun r0 => negb (matches_spec fi fvs r0)) t) (S (List.length tmp)) = None).
+        { apply find_key_None. rewrite map_app in ND. apply NoDup_app_r in ND. cbn [map] in ND. inversion ND; assumption. }
+        rewrite F. apply lookup_set_eq.
+      * destruct (find_key k _ (S (List.length tmp))); [reflexivity|]. rewrite lookup_set, Ek. reflexivity.
+Qed.
+
+Lemma NoDup_map_filter (f : rule -> bool) l : NoDup (map key l) -> NoDup (map key (filter f l)).
+Proof.
+  induction l as [|x t IH]; cbn [map filter]; intros H; [constructor|]. inversion H as [|? ? Hn H']; subst.
+  destruct (f x); [|auto]. cbn [map]. constructor; [|auto].
+  intros Hin. apply Hn. apply in_map_iff in Hin as [y [E Hy]]. apply filter_In in Hy as [Hy _].
+  rewrite <- E. apply in_map. exact Hy.
+Qed.
+
+Lemma filter_len_le {A} (f : A -> bool) l : List.length (filter f l) <= List.length l.
+Proof. induction l as [|x t IH]; cbn [filter List.length]; [lia|]. destruct (f x); cbn [List.length]; lia. Qed.
+
+Lemma filter_length_lt {A} (f : A -> bool) l :
+  List.length (filter f l) = List.length l <-> forallb f l = true.
+Proof.
+  induction l as [|x t IH]; cbn [filter forallb List.length]; [tauto|].
+  pose proof (filter_len_le f t) as Hle.
+  destruct (f x); cbn [List.length andb].
+  - rewrite <- IH. split; lia.
+  - split; [lia|discriminate].
+Qed.
+
+Lemma filter_all {A} (f : A -> bool) l : forallb f l = true -> filter f l = l.
+Proof.
+  induction l as [|x t IH]; cbn [filter forallb]; [reflexivity|]. intros H. apply andb_true_iff in H as [Hx Ht].
+  rewrite Hx, (IH Ht). reflexivity.
+Qed.
+
+Theorem remove_filtered_spec s fi fvs : Inv s -> in_range fi fvs (pol s) ->
+  exists s' res eff, remove_filtered s fi fvs = Some (s', res, eff) /\
+    Inv s' /\
+    pol s' = filter (fun r => negb (matches_spec fi fvs r)) (pol s) /\
+    eff = filter (matches_spec fi fvs) (pol s) /\
+    res = existsb (matches_spec fi fvs) (pol s).
+Proof.
+  intros [[ND C] W] H. unfold remove_filtered.
+  destruct (scan_filtered_spec fi fvs (pol s) [] [] [] H) as [m' [E L]]. rewrite E. cbn [app].
+  set (kept := filter (fun r => negb (matches_spec fi fvs r)) (pol s)) in *.
+  assert (NDk : NoDup (map key kept)) by (apply NoDup_map_filter; exact ND).
+  specialize (L NDk). cbn [List.length lookup] in L.
+  assert (Lk : forall k, lookup k m' = find_key k kept 0) by (intros k; rewrite L; destruct (find_key k kept 0); reflexivity).
+  assert (Wk : WF kept) by (apply Forall_forall; intros x Hx; apply filter_In in Hx as [Hx _]; eapply Forall_forall in W; eassumption).
+  assert (Hex : existsb (matches_spec fi fvs) (pol s) = negb (forallb (fun r => negb (matches_spec fi fvs r)) (pol s))).
+  { clear. induction (pol s) as [|x t IH]; cbn [existsb forallb]; [reflexivity|]. rewrite IH. destruct (matches_spec fi fvs x); reflexivity. }
+  destruct (Nat.eqb (List.length kept) (List.length (pol s))) eqn:El.
+  - apply Nat.eqb_eq in El. apply filter_length_lt in El. pose proof (filter_all _ _ El) as Ek. fold kept in Ek.
+    eexists _, _, _. split; [reflexivity|]. cbn [pol idx].
+    split; [split; [split; [exact ND|]|exact W]|]. { intros k. cbn [idx pol]. rewrite Lk, Ek. reflexivity. }
+    split; [symmetry; exact Ek|]. split; [reflexivity|]. rewrite Hex, El. reflexivity.
+  - apply Nat.eqb_neq in El. eexists _, _, _. split; [reflexivity|]. cbn [pol idx].
+    split; [split; [split; [exact NDk|exact Lk]|exact Wk]|]. split; [reflexivity|]. split; [reflexivity|].
+    rewrite Hex. destruct (forallb (fun r => negb (matches_spec fi fvs r)) (pol s)) eqn:F; [|reflexivity].
+    exfalso. apply El. apply filter_length_lt. exact F.
+Qed.
+
+(* ---------- clear / reindex_all ---------- *)
+Lemma empty_Inv : Inv empty_store.
+Proof. split; [split; [constructor|reflexivity]|constructor]. Qed.
+
